@@ -217,6 +217,34 @@ fn scenario(name: &str, n: usize) -> serde_json::Value {
                 drop(evs); // opaque messages dropped without decoding
             }
         },
+        "undecoded_low_fd" => {
+            // a process whose standard input is closed (a daemon): the descriptor that arrives with a message gets the LOWEST free
+            // number - 0.  The message is dropped without its endpoint ever being converted: the descriptor must be closed again
+            #[cfg(not(feature = "inprocess"))]
+            for k in 0..3 {
+                let pid = unsafe { libc::fork() };
+                if pid == 0 {
+                    use ipc_channel::platform::{self, OsIpcChannel};
+                    let (ptx, prx) = platform::channel().unwrap();
+                    let (s, _r) = platform::channel().unwrap();
+                    ptx.send(b"x", vec![OsIpcChannel::Sender(s)], vec![]).unwrap();
+                    unsafe { libc::close(k) };
+                    let (_d, ch, _m) = prx.recv().unwrap();
+                    let arrived = unsafe { libc::fcntl(k, libc::F_GETFD) } >= 0;
+                    drop(ch);
+                    let still_open = unsafe { libc::fcntl(k, libc::F_GETFD) } >= 0;
+                    unsafe { libc::_exit(if !arrived { 3 } else if still_open { 7 } else { 0 }) };
+                }
+                let mut st = 0;
+                unsafe { libc::waitpid(pid, &mut st, 0) };
+                let code = if libc::WIFEXITED(st) { libc::WEXITSTATUS(st) } else { -1 };
+                if code == 7 {
+                    notes.push(format!("a descriptor that arrived with a message as number {} (the lowest free one: standard stream {} was closed) was not closed when the message was dropped undecoded", k, k));
+                } else if code != 0 {
+                    notes.push(format!("low-descriptor scenario: child ended with {} (3 = the received descriptor did not get number {})", code, k));
+                }
+            }
+        },
         "router_cycle" => {
             use ipc_channel::router::RouterProxy;
             for i in 0..n {
